@@ -295,6 +295,52 @@ mod h {
     reply_equal!(reply_equal_fwd_rev, fwd, rev);
     reply_equal!(reply_equal_fwd_rot, fwd, rot);
 
+    /// Sub-message builders: the builder of the shared name requests the same trigger in every order
+    /// (a success and an error method exist => Always), stamps its own twin's id, and keeps the payload.
+    #[kani::proof]
+    #[kani::unwind(6)]
+    #[kani::stub(std::backtrace::Backtrace::capture, bt_disabled)]
+    #[kani::stub(alloc::fmt::format, fmt_stub)]
+    fn builder_equal() {
+        use sylvia::cw_std::{ReplyOn, WasmMsg};
+        let pb: u8 = kani::any();
+        let solo: bool = kani::any();
+        macro_rules! build {
+            ($m:ident) => {{
+                use $m::sv::SubMsgMethods;
+                let base = WasmMsg::ClearAdmin { contract_addr: String::new() };
+                let r: sylvia::cw_std::StdResult<sylvia::cw_std::SubMsg<Empty>> =
+                    if solo { base.solo(Binary::from(vec![pb])) } else { base.both(Binary::from(vec![pb])) };
+                match r {
+                    Ok(s) => {
+                        let want_id = if solo { $m::sv::SOLO_REPLY_ID } else { $m::sv::BOTH_REPLY_ID };
+                        assert!(s.id == want_id, "builder stamps its own handler's id");
+                        assert!(s.payload.as_slice().len() == 1 && s.payload.as_slice()[0] == pb);
+                        let k = match s.reply_on {
+                            ReplyOn::Always => 0u8,
+                            ReplyOn::Success => 1,
+                            ReplyOn::Error => 2,
+                            ReplyOn::Never => 3,
+                        };
+                        core::mem::forget(s);
+                        k
+                    }
+                    Err(e) => {
+                        core::mem::forget(e);
+                        9
+                    }
+                }
+            }};
+        }
+        let f = build!(fwd);
+        let r = build!(rev);
+        let t = build!(rot);
+        assert!(f == r && f == t, "same reply trigger in every declaration order");
+        assert!(f == if solo { 1 } else { 0 }, "shared name with success and error methods => Always; solo success => Success");
+        kani::cover!(solo);
+        kani::cover!(!solo);
+    }
+
     /// Override attributes in either order: the non-overridden entry points forward identically.
     #[kani::proof]
     #[kani::unwind(6)]
